@@ -39,7 +39,8 @@ static void run_case(uint64_t c, unsigned max_threads) {
     const V       *vals[nvals];
     std::basic_string<C> before[nvals], fresh[nvals];
     for (unsigned i = 0; i < nvals; ++i) {
-        vals[i] = &g_pool->v[i == 0 ? 0 : r.below(uint32_t(g_pool->v.size()))];
+        // value 0: the main document; value 1: the same set names reached through pointers-to-value, unsorted
+        vals[i] = &g_pool->v[i == 0 ? 0 : (i == 1 ? g_pool->pointer_sets : r.below(uint32_t(g_pool->v.size())))];
         SS s;
         vals[i]->Stringify(s, 17U);
         before[i] = str(s);
